@@ -24,10 +24,11 @@ Theorem C02_state_chain_step :
 Proof. exact state_chain_step_lemma. Qed.
 Print Assumptions C02_state_chain_step.
 
-(* T2: in any state, any operation: each track_playback_started adds exactly one entry for that
+(* T2: in any state, any operation of a running process (Load starts a new process, SetHistory
+   is the harness's way of starting from a session with a long history): each track_playback_started adds exactly one entry for that
    track at the head of the history, and nothing else touches the history. *)
 Theorem C02_started_feeds_history :
-  forall shuf fuel o w, (forall c, o <> Load c) ->
+  forall shuf fuel o w, (forall c, o <> Load c) -> (forall ks, o <> SetHistory ks) ->
   let w' := stepw shuf fuel w o in
   exists new, events w' = new ++ events w /\ history w' = started new ++ history w.
 Proof. exact started_feeds_history_lemma. Qed.
